@@ -76,6 +76,17 @@ def handleClassGroup : Handler
   | ["cg_classnumber", d] => do
     let d ← parseInt d
     some (toString (classNumber d))
+  | ["cg_compose", a1, b1, c1, a2, b2, c2] => do
+    -- the reference composition of the model (Cohen 5.4.7 + xgcd + reduce): Props/C18Group
+    let a1 ← parseInt a1; let b1 ← parseInt b1; let c1 ← parseInt c1
+    let a2 ← parseInt a2; let b2 ← parseInt b2; let c2 ← parseInt c2
+    let g := Form.compose ⟨a1, b1, c1⟩ ⟨a2, b2, c2⟩
+    some s!"{g.a} {g.b} {g.c}"
+  | ["cg_reduce", a, b, c] => do
+    let a ← parseInt a; let b ← parseInt b; let c ← parseInt c
+    let f : Form := ⟨a, b, c⟩
+    let g := f.reduce (reduceFuel f)
+    some s!"{g.a} {g.b} {g.c} {showBool g.isReducedPrim}"
   | ["cg_invcheck", h, invs] => do
     let h ← parseNat h; let invs ← parseNatList invs
     some (showBool (invariantsOk h invs))
